@@ -28,7 +28,7 @@ def main():
             d, meta.get("property"), summ.replace("|", "/").replace("\n", " ")[:300],
             str(meta.get("needs_to_manifest", "")).replace("|", "/").replace("\n", " ")[:250],
             (res.get("tests") or "not re-run").split(" in ")[0], res.get("demo_patched_exit"), res.get("demo_clean_exit"),
-            "<br>".join(verdicts).replace("|", "/")))
+            ("<br>".join(verdicts) + (("<br>NOTE: " + res["note"]) if res.get("note") else "")).replace("|", "/")))
     out = ["# Seeded changes", "",
            "Produced by fresh sub-agents given only the property text and a scratch worktree (see DESIGN.md §6). Each directory holds",
            "`patch.diff` (applies to /repo HEAD at the time of the run), `demo.py` (exit 1 with the patch, 0 without), `meta.json`, and",
